@@ -14,6 +14,16 @@ documentation describes it (Pan Docs "Interrupts", "HALT", "halt bug", "EI"; pro
 
 Core Lean only, executable.  State = the architectural state `St` of `Spec/Isa.lean`; there is no notion
 of a micro-operation, a schedule or a cycle counter here.
+
+Two places where the documentation is silent or the hardware is subtler than this machine (both are
+stated here as the property texts C04/C05 state them, and reported in DESIGN/the final report):
+* STOP.  The property texts say nothing about leaving STOP mode; on a DMG a joypad line going low ends it.
+  This machine (like the code) has no way out of `stopped`: a stopped CPU idles; an enabled request
+  with IME set is still dispatched (the check precedes everything else) and the CPU then idles at the
+  vector, still stopped.
+* The dispatch acknowledges IF and clears IME BEFORE the two pushes, which go through the ordinary bus
+  write: with SP-1 or SP-2 on FF0F/FFFF the pushed byte lands in IF/IE after the acknowledge.  (On
+  hardware the vector is chosen between the two pushes; only stacks on FF0F/FFFF/0000/0001 can tell.)
 -/
 namespace Tetro.Spec.Isa
 open Tetro.Model.Cpu (Byte Word Flat)
